@@ -481,8 +481,23 @@ func subsetTestsRule(o *Ob) {
 		o.Site(c, s.fn)
 		set := e.Arg(c, 0)
 		o.Check(e.Arg(c, 1) == "p0", "asked|"+s.fn, "the set asked about must be the caller's, is "+e.Arg(c, 1), c)
+		// the answer is the subset test's; the two trivial cases may be answered early: an empty asked set is a
+		// subset of anything, a non-empty one of no empty list
+		askedEmpty := LRe(`\(len\(p0\) == 0\)|\(len\(p0\) < 1\)`, true)
+		entryEmpty := LRe(`\(len\(recv\.`+s.field+`\) == 0\)|\(len\(recv\.`+s.field+`\) < 1\)`, true)
+		underAskedEmpty := (&Walk{Fn: fn, Cut: e.CutContradicting(askedEmpty)}).FromEntry()
 		for _, ret := range (&Walk{Fn: fn}).FromEntry().Returns() {
-			o.Check(e.X(fn, ret.Results[0]) == e.X(fn, c.(*ssa.Call)), "answer|"+s.fn, s.fn+" must return the subset test's answer", ret)
+			for _, a := range AltsOf(ret.Results[0]) {
+				switch v := e.X(fn, a.V); {
+				case v == e.X(fn, c.(*ssa.Call)):
+				case v == "true":
+					o.Check(e.OnlyUnder(ret, askedEmpty) || e.AltUnder(a, askedEmpty), "answer-true|"+s.fn, s.fn+" answers 'already listed' without the subset test for a non-empty asked set", ret)
+				case v == "false":
+					o.Check((e.OnlyUnder(ret, entryEmpty) || e.AltUnder(a, entryEmpty)) && (a.Pred == nil && !underAskedEmpty.Has(ret) || a.Pred != nil && e.AltUnder(a, askedEmpty.Neg())), "answer-false|"+s.fn, s.fn+" answers 'not listed' without the subset test although the entry has hashes or nothing was asked", ret)
+				default:
+					o.Fail("answer|"+s.fn, s.fn+" must return the subset test's answer, returns "+clip(v), ret)
+				}
+			}
 		}
 		n := 0
 		for _, in := range AllInstrs(fn) {
